@@ -1494,7 +1494,7 @@ theorem go_ok (fold : Str → Str) (ms : List Temporal.Marker) (st : List Str ×
     by_cases hc : fold m.name ∈ st.2
     · simp [hc] at h
     · have hc' : ¬ st.2.contains (fold m.name) = true := by simpa using hc
-      simp only [hc, hc', if_false] at h ⊢
+      simp only [hc'] at h ⊢
       cases he : (Temporal.handle st.1 m.kind (fold m.name)).2 with
       | some x => simp [he] at h
       | none =>
@@ -1525,7 +1525,7 @@ theorem seq_filter (fold : Str → Str) (ms : List Temporal.Marker) (op : List S
     obtain ⟨k, n⟩ := m
     cases k <;> simp only [List.filter_cons, notInset, seqOp, seqOK, Temporal.handle] <;>
       simp only [bne_self_eq_false, Bool.false_eq_true, if_false, reduceCtorEq, bne_iff_ne, ne_eq,
-        not_false_eq_true, decide_true, if_true, seqOp, seqOK, Temporal.handle]
+        not_false_eq_true, if_true, seqOp, seqOK, Temporal.handle]
     · exact ⟨(ih _).1, fun h => ⟨h.1, (ih _).2 h.2⟩⟩
     · split
       · exact ⟨(ih _).1, fun h => ⟨h.1, (ih _).2 h.2⟩⟩
